@@ -89,6 +89,14 @@ CHECKS["C06"] = world("C06", "TestC06", HIST + "profile gang (85% gang applicati
     "preemption, predicates that refuse the placeholder's node, late/duplicate/missing confirmations); non-trivial = a confirmed swap or a fired placeholder timeout, plus a disturbance "
     "(node removed with a swap in flight, placeholder or real ask cancelled mid swap, preempted placeholder, duplicated or dropped confirmation, application removed with allocations)",
     quick=(14, 250))
+CHECKS["C13"] = world("C13", "TestC13", HIST + "profile hostile: a quarter of the ops are requests no protocol following shim would send, built by mutating valid requests against the current state "
+    "(unknown/removed/empty ids and partitions, unset sub-messages, zero/negative resources, placeholder without task group, releases of unknown keys or with any termination type, "
+    "duplicate applications and nodes, node actions for unknown nodes or without effect, foreign allocations on unknown nodes); the accounting oracle of C03 is used as corruption detector; "
+    "non-trivial = a hostile request executed in a world with a bound allocation, a pending ask and a swap in flight, a reservation or a preempted allocation",
+    quick=(14, 200))
+CHECKS["C13"]["fuzz"] = [{"target": "FuzzC13", "seconds": 150}]
+CHECKS["C13"]["replay_test"] = "TestWorldReplay|TestC13FuzzReplay"
+CHECKS["C13"]["crash_is_violation"] = True
 CHECKS["C09"] = world("C09", "TestC09", HIST + "profile reserve (reservation delay 0, small nodes, 30% required-node asks); non-trivial = a reservation was made and one was removed by "
     "something other than a scheduling cycle (ask/app/node removal, RM reported binding)")
 CHECKS["C10"] = world("C10", "TestC10", HIST + "profile churn-apps; non-trivial = an application that visited at least 4 states")
@@ -133,6 +141,12 @@ META = {
     "C05": _world_meta("the limits of the latest accepted configuration and usage = sum of live allocations per user/group and queue"),
     "C06": _world_meta("step predicates on swap links (same application and task group, real no larger than placeholder), on confirmations (placeholder gone, real on the announced node, "
                        "node/queue/user usage not above the pre-step values), on placeholder counters, on timeout behaviour per gang style and 'no placeholder outlives its application'"),
+    "C13": {
+        "level_text": "generated-history search with structurally hostile SI requests mixed into legal traffic (state unchanged + rejection asserted for the classes known to be invalid, "
+                      "no panic / no hang / accounting invariants for all) plus coverage-guided byte-level fuzzing of the three request types in the thorough tier; no counterexample in N cases",
+        "level_note": WORLD_NOTE + "; 'invalid' is known only for the structured mutation classes; the harness repeats the partition-name normalisation of RMProxy.Update*",
+        "technique": "stateful property-based testing (rapid) with hostile request mutation + native go fuzzing of protobuf bytes, oracle: no panic/hang, rejection, state unchanged, accounting invariants",
+    },
     "C09": _world_meta("equality of the application, node and queue views of the reservation relation and exclusivity rules after every step"),
     "C10": _world_meta("the documented application life-cycle table applied to shim messages and state log, plus state/ledger agreement"),
     "C11": _world_meta("the max-applications gate evaluated on the pre-step queue view and counter sanity after every step"),
